@@ -391,14 +391,16 @@ def run(P, R, tier):
     common.forward(P, R, 'C04', ['C04.b', 'C04.c'], 'C18.g', 'a cx query racing with the first build_sindex: the indexer works on ONE snapshot of the index and branches on the result it obtained', floor=2)
     # write-target injectivity of the packing tasks (shared with C10.c)
     from rules import C10
-    sub = type(R)(R.prop, R.tier)
-    C10.run(P, sub, tier)
+    sub, sub_err = common.sub_results(P, R, 'C10')
+    if sub_err is not None and not any(o.status == 'violated' for o in list(R.obs) + list(sub.obs)):
+        raise sub_err
     k = 0
     for o in sub.obs:
         if o.rule == 'C10.c' and ('sub-part' in o.detail):
             k += 1
             R._add('C18.c', (o.path, o.site.split('::')[-1]), None, o.status, 'write-target injectivity: ' + o.detail, construct=o.construct)
-    R.floor('C18.c', 'write-target obligations of the packing tasks', k, 2)
+    if sub_err is None:
+        R.floor('C18.c', 'write-target obligations of the packing tasks', k, 2)
     common.fresh_arguments(P, R, 'C18.d', floor=12)
     # C18.e: objects shared between threads (arrays, indexes, frames) are not written by their query methods; only constructors and the
     # enumerated lazily-built caches store attributes (the check-then-build race of those caches is NOT decided, see module docstring)
